@@ -24,7 +24,8 @@ pub struct MecabCase {
     pub model: Vec<(String, String)>,
     /// 0 => 1, 1 => 100, 2 => 700, 3 => 800.5
     pub factor: u8,
-    /// error variant: 0 none, 1 remove a middle id (right), 2 remove a middle id (left), 3 malformed id line, 4 id 0 is not BOS/EOS
+    /// error variant: 0 none, 1 remove a middle id (right), 2 remove a middle id (left), 3 malformed id line, 4 id 0 is not BOS/EOS,
+    /// 5 / 6 no line for id 0 in right-id.def / left-id.def (rejected, or every defined id emitted)
     pub error: u8,
 }
 
@@ -59,9 +60,11 @@ pub fn render(case: &MecabCase) -> Files {
         feature_def.push_str(&format!("BIGRAM {l}/{r}\n"));
     }
     let bos = vec!["BOS/EOS".to_string(), "*".to_string(), "*".to_string()];
-    let side = |rows: &Vec<Vec<String>>, drop_mid: bool, bad0: bool, malformed: bool| {
+    let side = |rows: &Vec<Vec<String>>, drop_mid: bool, bad0: bool, malformed: bool, no0: bool| {
         let mut s = String::new();
-        if bad0 {
+        if no0 {
+            // no line for id 0 at all: the defined ids are 1..n
+        } else if bad0 {
             s.push_str(&id_line(0, &["N".to_string(), "*".to_string()]));
         } else {
             s.push_str(&id_line(0, &bos));
@@ -78,8 +81,8 @@ pub fn render(case: &MecabCase) -> Files {
         }
         s
     };
-    let right_id_def = side(&case.right_ids, case.error == 1, case.error == 4, case.error == 3);
-    let left_id_def = side(&case.left_ids, case.error == 2, false, false);
+    let right_id_def = side(&case.right_ids, case.error == 1, case.error == 4, case.error == 3, case.error == 5);
+    let left_id_def = side(&case.left_ids, case.error == 2, false, false, case.error == 6);
     let mut model_def = String::from("0.125\tU0:N\n-0.5\tU1:N,V\n");
     for (w, t) in &case.model {
         model_def.push_str(&format!("{w}\t{t}\n"));
@@ -99,7 +102,7 @@ fn mecab_case() -> BoxedStrategy<MecabCase> {
         vec(prop_oneof![8 => vec(any::<u16>(), 1..=4), 1 => vec(any::<u16>(), 11..=22)], 1..=8),
         vec((any::<u16>(), any::<u16>(), any::<u16>(), any::<u16>(), 0u8..10), 0..=40),
         0u8..4,
-        prop_oneof![8 => Just(0u8), 1 => 1u8..=4],
+        prop_oneof![8 => Just(0u8), 1 => 1u8..=6],
     )
         .prop_map(|(templates, rraw, lraw, mraw, factor, error)| {
             let cells = |v: &Vec<Vec<u16>>| -> Vec<Vec<String>> {
@@ -193,6 +196,16 @@ impl Sub for Conversion {
                     case.error, f.right_id_def, f.left_id_def
                 )),
             };
+        }
+        if case.error >= 5 {
+            // an id table without a line for id 0: an error is fine; if it is accepted, every defined id must still
+            // come out (the oracle below), none may be dropped silently
+            ctx.label(&format!("error_variant_{}", case.error));
+            if res.is_err() {
+                ctx.label("table_without_id_0_rejected");
+                ctx.nontrivial(&(&f.right_id_def, &f.left_id_def, case.error));
+                return Ok(());
+            }
         }
         res.map_err(|e| format!("valid model description rejected: {e}"))?;
         let s = |v: Vec<u8>| String::from_utf8(v).map_err(|e| e.to_string());
